@@ -54,8 +54,8 @@ Definition k_audiocodecid : bytes := [97; 117; 100; 105; 111; 99; 111; 100; 101;
 
 (* RevSdp valid kind: the SDP callback fired; valid = sdp.Pack made a description (RawSdp non-nil), kind = the
    video payload type the parsed description announces (0 none / other, 1 avc, 2 hevc).
-   RevRtp l: the RTP payloads (packet bodies behind the 12-byte header) handed to onRtpPacket, in order, each with
-   'it is a packet of the video track' (Group.feedRtpPacket looks for a GOP start in those only: lal fix of C06) *)
+   RevRtp l: the RTP payloads (packet bodies behind the 12-byte header) handed to onRtpPacket, in order,
+   each with its track (true = the video packer's payload type, false = the audio packer's) *)
 Inductive rtsp_ev : Type := RevSdp (valid : bool) (kind : N) | RevRtp (l : list (bool * bytes)).
 
 (* RtpPackerPayloadAvcHevc.PackNal, maxSize 1200: the payloads made of one nal *)
@@ -115,6 +115,22 @@ Definition rtsp_audio_packer (s : rtsp_st) : rtsp_st * bool :=
 
 (* remux: number of RTP packets handed to onRtpPacket.  [add] =
    RtspRemuxerAddSpsPps2KeyFrameFlag (the key-frame rewrite slices Payload[9:]) *)
+(* RtspRemuxerAddSpsPps2KeyFrameFlag: a key frame is re-packed as sps, pps (vps, sps, pps), first nalu.  [tail] = the
+   first nalu's data as the code takes it (evaluated only where Go evaluates it; both tests are made, the second
+   assignment wins) *)
+Definition join_avcc (l : list bytes) : bytes := flat_map (fun x => be_put 4 (lenN x) ++ x) l.
+Definition rtsp_add_spspps (fx : fixes) (s : rtsp_st) (m : mmsg) (payload : bytes) (tail : res bytes) : res bytes :=
+  let get := fun (o : option bytes) => match o with Some x => x | None => [] end in
+  let* ak := is_avc_key_nalu fx m in
+  let* pa := (if ak && (match rs_pps s with Some _ => true | None => false end) then
+                let* t := tail in Ok (join_avcc [get (rs_sps s); get (rs_pps s); t])
+              else Ok payload) in
+  let* hk := is_hevc_key_nalu fx m in
+  match hk, rs_vps s, rs_pps s with
+  | true, Some v, Some q => let* t := tail in Ok (join_avcc [v; get (rs_sps s); q; t])
+  | _, _, _ => Ok pa
+  end.
+
 Definition s_rtsp_remux9 : N := 119.   (* remux.Rtmp2RtspRemuxer.remux:slice, Payload[9:] *)
 
 Definition rtsp_remux (fx : fixes) (add : bool) (s : rtsp_st) (m : mmsg) : res (rtsp_st * list (bool * bytes)) :=
@@ -141,21 +157,11 @@ Definition rtsp_remux (fx : fixes) (add : bool) (s : rtsp_st) (m : mmsg) : res (
         let* payload := from s_rtsp_remux p index in
         let* payload2 :=
           (if add then
-             let* ak := is_avc_key_nalu fx m in
-             let* pa := (if ak && (match rs_pps s with Some _ => true | None => false end) then
-                           let* tail := from s_rtsp_remux9 p 9 in
-                           Ok (be_put 4 (lenN (match rs_sps s with Some x => x | None => [] end)) ++ (match rs_sps s with Some x => x | None => [] end)
-                               ++ be_put 4 (lenN (match rs_pps s with Some x => x | None => [] end)) ++ (match rs_pps s with Some x => x | None => [] end)
-                               ++ be_put 4 (lenN tail) ++ tail)
-                         else Ok payload) in
-             let* hk := is_hevc_key_nalu fx m in
-             match hk, rs_vps s, rs_pps s with
-             | true, Some v, Some q =>
-               let* tail := from s_rtsp_remux9 p 9 in
-               let sp := match rs_sps s with Some x => x | None => [] end in
-               Ok (be_put 4 (lenN v) ++ v ++ be_put 4 (lenN sp) ++ sp ++ be_put 4 (lenN q) ++ q ++ be_put 4 (lenN tail) ++ tail)
-             | _, _, _ => Ok pa
-             end
+             if fx_addflag fx then
+               (* after the F-46 repair: the first nalu is payload[4:]; a key frame too short to hold a nalu length goes on unchanged *)
+               if Nat.leb (length payload) 4 then Ok payload
+               else rtsp_add_spspps fx s m payload (Ok (skipn 4 payload))
+             else rtsp_add_spspps fx s m payload (from s_rtsp_remux9 p 9)
            else Ok payload) in
         (* the packer was created for r.videoPt: anything but AvPacketPtAvc packs as hevc *)
         let* n := video_payloads (negb (rs_video_pt s =? pt_avc)) payload2 in
@@ -257,20 +263,38 @@ Definition rtsp_set_asc (s0 : rtsp_st) (asc : bytes) : rtsp_st :=
 Definition rtsp_push_cache (s0 : rtsp_st) (m : mmsg) : rtsp_st :=
   mk_rtsp (rs_done s0) (rs_cache s0 ++ [m]) (rs_vps s0) (rs_sps s0) (rs_pps s0) (rs_asc s0) (rs_audio_pt s0) (rs_video_pt s0) (rs_apacker s0) (rs_vpacker s0).
 
-(* the metadata branch: audiocodecid *)
-Definition rtsp_meta (acfg : amf_cfg) (s : rtsp_st) (p : bytes) : res rtsp_st :=
+(* a Go type assertion v.(float64) on what ObjectPairArray.Find returned (None = nil interface: key absent, or a
+   null / undefined value, which the readers drop).  The AMF value is a sum type (number | boolean | string |
+   pair list for object / ecma array / strict array): the comma-ok form `x, ok := v.(float64)` yields ok = false
+   for every other summand, the unchecked form `v.(float64)` panics for them (and for nil) *)
+Definition s_meta_assert : N := 122.   (* remux.Rtmp2RtspRemuxer.FeedRtmpMsg:explicit (interface conversion) *)
+Definition assert_f64 (comma_ok : bool) (v : option aval) : res (option N) :=
+  match v with
+  | Some (ANum bits) => Ok (Some bits)
+  | _ => if comma_ok then Ok None else Panic s_meta_assert
+  end.
+
+Definition k_audiosamplerate : bytes := [97; 117; 100; 105; 111; 115; 97; 109; 112; 108; 101; 114; 97; 116; 101].
+
+(* the metadata branch: audiocodecid and audiosamplerate, both read with the comma-ok form in lal ([ok] = true);
+   the sample rate only reaches the SDP text and the packers' clock rate, which are not modelled *)
+Definition rtsp_meta_gen (ok : bool) (acfg : amf_cfg) (s : rtsp_st) (p : bytes) : res rtsp_st :=
   match fst (parse_metadata acfg p) with
   | Panic site => Panic site
   | Err _ => Ok s
   | Ok meta =>
-    match pairs_find k_audiocodecid meta with
-    | Some (ANum bits) =>
-      let c := f64_to_u8 bits in
-      Ok (if c =? 8 then set_audio_pt s pt_g711u else if c =? 7 then set_audio_pt s pt_g711a
-          else if c =? 13 then set_audio_pt s pt_opus else s)
-    | _ => Ok s
-    end
+    let* codec := assert_f64 ok (pairs_find k_audiocodecid meta) in
+    let s1 := match codec with
+              | Some bits =>
+                let c := f64_to_u8 bits in
+                if c =? 8 then set_audio_pt s pt_g711u else if c =? 7 then set_audio_pt s pt_g711a
+                else if c =? 13 then set_audio_pt s pt_opus else s
+              | None => s
+              end in
+    let* _ := assert_f64 ok (pairs_find k_audiosamplerate meta) in
+    Ok s1
   end.
+Definition rtsp_meta : amf_cfg -> rtsp_st -> bytes -> res rtsp_st := rtsp_meta_gen true.
 
 Definition rtsp_gate_short (m : mmsg) : bool :=
   if mm_type m =? t_audio then Nat.leb (length (mm_pay m)) 2
